@@ -110,6 +110,16 @@ pub mod vx_canon {
 
 // ---- std specs missing from vstd (trusted; the contract is the std documentation)
 verus! {
+/// R9 wrappers for std::path / std::fs calls (opaque: no property depends on their results)
+#[verifier::external_body] pub fn vx_pathbuf_from<S: Into<std::path::PathBuf>>(s: S) -> (r: std::path::PathBuf) { s.into() }
+#[verifier::external_body] pub fn vx_path_join(a: &String, b: std::path::PathBuf) -> (r: std::path::PathBuf) { std::path::Path::new(a).join(b) }
+#[verifier::external_body] pub fn vx_path_parent(p: &std::path::PathBuf) -> (r: Option<&std::path::Path>) { p.parent() }
+#[verifier::external_body] pub fn vx_create_dir_all(p: &std::path::Path) -> (r: Result<(), crate::anyhow::Error>) { unimplemented!() }
+/// R9 wrapper for Vec::extend(Vec): appends the elements in order
+#[verifier::external_body]
+pub fn vx_vec_extend<T>(v: &mut Vec<T>, other: Vec<T>)
+    ensures final(v)@ == old(v)@ + other@
+{ v.extend(other) }
 /// char classification: specified on ASCII only (what Unicode says about the rest is left open)
 pub assume_specification [char::is_alphanumeric] (c: char) -> (r: bool)
     ensures (c as u32) < 128 ==> r == ((97 <= c as u32 <= 122) || (65 <= c as u32 <= 90) || (48 <= c as u32 <= 57));
@@ -121,6 +131,14 @@ pub assume_specification<T, P: FnOnce(&T) -> bool> [core::option::Option::<T>::f
         Some(x) => (match r { Some(y) => x == y && call_ensures(p, (&x,), true), None => call_ensures(p, (&x,), false) }),
         None => r is None });
 }
+
+// `==` on String is equality of the characters (vstd leaves PartialEqSpec for String unspecified): trusted
+pub mod vx_string_eq { use vstd::prelude::*; use vstd::std_specs::cmp::PartialEqSpec;
+verus!{
+pub broadcast axiom fn ax_obeys() ensures #[trigger] <String as PartialEqSpec<String>>::obeys_eq_spec();
+pub broadcast axiom fn ax_eq(a: &String, b: &String) ensures #[trigger] <String as PartialEqSpec<String>>::eq_spec(a, b) == (a@ == b@);
+pub broadcast group g { ax_obeys, ax_eq }
+}}
 
 // `==` on str is equality of the characters (vstd leaves PartialEqSpec for str unspecified): trusted
 pub mod vx_str_eq { use vstd::prelude::*; use vstd::std_specs::cmp::PartialEqSpec;
